@@ -8,7 +8,7 @@ import (
 
 // C02 (broker role): receiver side of QoS 1/2.
 func C02(c *core.Ctx) {
-	c.Rep.Bound = "HIST, broker role: PUBLISH QoS 1 / QoS 2 (payload A), repeated PUBLISH with the same id (DUP, payload B), PUBREL, repeated PUBREL over packet ids {1,2}, an 8000-byte filler that wraps the rings, one subscriber granted QoS 2; BFS de-duplicated on model + implementation state to depth 6 (quick) / 8 (thorough) and every sequence to depth 4 (quick) / 5 (thorough); bursts of 1-36 exchanges in flight (every count, so the queue is exactly full at 16 and 32 and grows at 17 and 33) after 0-8 completed ones, released in three orders; client role: see C20/C12 harness (library Client against a scripted server)"
+	c.Rep.Bound = "HIST, broker role: PUBLISH QoS 1 / QoS 2 (payload A), repeated PUBLISH with the same id (DUP, payload B), PUBREL, repeated PUBREL over packet ids {1,2}, an 8000-byte filler that wraps the rings, one subscriber granted QoS 2; BFS de-duplicated on model + implementation state to depth 6 (quick) / 8 (thorough) and every sequence to depth 4 (quick) / 5 (thorough); acknowledgements that start 0..11 bytes before the end of the publisher's outgoing ring; bursts of 1-36 exchanges in flight (every count, so the queue is exactly full at 16 and 32 and grows at 17 and 33) after 0-8 completed ones, released in three orders; client role: see C20/C12 harness (library Client against a scripted server)"
 	c.Rep.Rule = "per packet one PUBACK/PUBREC/PUBCOMP with the same id; QoS 1 handed on once per PUBLISH; QoS 2 handed on at most once per exchange, never before its PUBREL, at the latest once its PUBREL and those of earlier exchanges are processed, with the content of the first PUBLISH; distinct = canonical model (open exchanges with released/delivered flags) + implementation state"
 	p8k := big(8000, 7)
 	var ops []Action
@@ -41,7 +41,52 @@ func C02(c *core.Ctx) {
 	if c.HasViolation() || c.Expired() {
 		return
 	}
+	c02wrap(c, comps)
+	if c.HasViolation() || c.Expired() {
+		return
+	}
 	c02client(c)
+}
+
+// c02wrap: the acknowledgements themselves cross the end of the publisher's
+// outgoing ring.  X also subscribes to a topic of its own; two deliveries of
+// chosen sizes bring its outgoing ring to 16384-o bytes, then a QoS 1 publish
+// and a QoS 2 exchange follow: PUBACK, PUBREC and PUBCOMP start o, o-4, ...
+// bytes before the ring end, for every o in 0..11.
+func c02wrap(c *core.Ctx, comps map[string]bool) {
+	for o := 0; o <= 11; o++ {
+		if c.NShards > 1 && o%c.NShards != c.Shard {
+			continue
+		}
+		if c.Expired() || c.HasViolation() {
+			return
+		}
+		// X's outgoing ring: SUBACK (5 bytes), then the two deliveries
+		target := 16384 - o - 5
+		n1 := 8183 // both packets stay below the 8192-byte packet limit of 16 KiB rings
+		n2 := target - (n1 + 7) - 7
+		hist := []Action{conn("S", "s", true), sub("S", 1, "t", 2), conn("X", "x", true), sub("X", 2, "zz", 0),
+			pub("X", "zz", 0, 0, big(n1, 5)), pub("X", "zz", 0, 0, big(n2, 6)),
+			pub("X", "t", 1, 7, "q1-at-the-wrap"),
+			{Kind: "pub2", Client: "X", Topic: "t", QoS: 2, ID: 0x0c00, Payload: "q2-at-the-wrap"},
+			pub("X", "t", 1, 0x1234, "q1-after-the-wrap"),
+		}
+		spec := &HistSpec{Name: "ack-at-wrap", Comps: comps}
+		r := spec.RunHistory(hist, false)
+		c.Rep.Evaluations++
+		c.Rep.Executions++
+		c.Rep.States++
+		c.Rep.Nontrivial++
+		c.Rep.Transitions += int64(r.Steps)
+		if r.Violation != "" {
+			rr := spec.RunHistory(hist, true)
+			if c.Violate("C02 ack-at-wrap :: "+violClass(r.Violation), core.Replay{Scenario: fmt.Sprintf("ack-at-wrap: the publisher's outgoing ring stands %d bytes before its end when the acknowledgements start", o), Message: r.Violation, Log: tailS(rr.Trace, 30)}) {
+				return
+			}
+		}
+	}
+	c.Rep.Scenarios++
+	c.Rep.Sample(map[string]interface{}{"search": "ack-at-wrap", "offsets_before_ring_end": "0..11"})
 }
 
 // c02burst: many QoS 2 exchanges in flight at once (the inbound queue grows
